@@ -52,6 +52,47 @@ def row_trees(J, dof_treeid):
     return out
 
 
+def may_groups(m, d, S, E):
+    """Structural incidence per constraint row (upper bound of the coupling): trees with a structurally present
+    Jacobian entry plus, for geom-geom contacts and connect/weld equalities, the trees of the two bodies, and for
+    dof friction / joint limits the tree of the dof (documentation: "an edge is a constraint ... between two bodies
+    belonging to different trees"). Entries may be numerically zero in degenerate configurations."""
+    nefc = d.s("nefc")
+    dof_tree = m["dof_treeid"].astype(np.int64)
+    body_tree = m["body_treeid"].astype(np.int64)
+    rt_str = row_trees(S, dof_tree)
+    if nefc == 0:
+        return []
+    efc_type = d.arena("efc_type")[:nefc].astype(np.int64)
+    efc_id = d.arena("efc_id")[:nefc].astype(np.int64)
+    con = d.contacts()
+    contact_types = (E.mjCNSTR_CONTACT_FRICTIONLESS, E.mjCNSTR_CONTACT_PYRAMIDAL, E.mjCNSTR_CONTACT_ELLIPTIC)
+    out = []
+    for r in range(nefc):
+        s = set(int(x) for x in rt_str[r])
+        t, i = efc_type[r], efc_id[r]
+        if t in contact_types:
+            g = con["geom"][i]
+            if g[0] >= 0 and g[1] >= 0:
+                for gg in g:
+                    tb = body_tree[m["geom_bodyid"][gg]]
+                    if tb >= 0:
+                        s.add(int(tb))
+        elif t == E.mjCNSTR_EQUALITY and m["eq_type"][i] in (E.mjEQ_CONNECT, E.mjEQ_WELD):
+            b1, b2 = int(m["eq_obj1id"][i]), int(m["eq_obj2id"][i])
+            if m["eq_objtype"][i] == E.mjOBJ_SITE:
+                b1, b2 = int(m["site_bodyid"][b1]), int(m["site_bodyid"][b2])
+            for b in (b1, b2):
+                if body_tree[b] >= 0:
+                    s.add(int(body_tree[b]))
+        elif t == E.mjCNSTR_FRICTION_DOF:
+            s.add(int(dof_tree[i]))
+        elif t == E.mjCNSTR_LIMIT_JOINT:
+            s.add(int(dof_tree[m["jnt_dofadr"][i]]))
+        out.append(sorted(s))
+    return out
+
+
 def components(ntree, groups):
     """groups: iterable of tree-id collections that are each mutually coupled (a singleton activates its tree).
 
